@@ -15,7 +15,7 @@ from . import binder as B
 BATCH = 250
 
 
-def emit_cases(work, stats, maxparams, maxargs, rich, overloads):
+def emit_cases(work, stats, maxparams, maxargs, rich, overloads, anyret=False):
     cases = []
 
     def feed(line):
@@ -23,7 +23,8 @@ def emit_cases(work, stats, maxparams, maxargs, rich, overloads):
 
     r = C.run_tlc(work, "MCBinder", "Binder_emit.cfg", workers=1, timeout=3000, stream=feed, heap="16g",
                   consts={"MAXPARAMS": maxparams, "MAXARGS": maxargs, "RICH": "TRUE" if rich else "FALSE",
-                          "OVERLOADS": "TRUE" if overloads else "FALSE", "EMIT": "TRUE", "EXTRA": ""})
+                          "OVERLOADS": "TRUE" if overloads else "FALSE", "EMIT": "TRUE", "EXTRA": "",
+                          "ANYRET": "TRUE" if anyret else "FALSE"})
     if not r.ok:
         raise C.HarnessError("Binder model violates one of its structural invariants: %s" % r.violation)
     if len(cases) != r.distinct:
@@ -37,7 +38,7 @@ def expect_deviation(work, stats, inv, maxparams=2, maxargs=2, rich=True):
     """TLC must find a counterexample to `inv` on the as-is binder (non-vacuity of the comparison)."""
     r = C.run_tlc(work, "MCBinder", "Binder_emit.cfg", workers=4, timeout=1200,
                   consts={"MAXPARAMS": maxparams, "MAXARGS": maxargs, "RICH": "TRUE" if rich else "FALSE",
-                          "OVERLOADS": "FALSE", "EMIT": "FALSE", "EXTRA": inv})
+                          "OVERLOADS": "FALSE", "EMIT": "FALSE", "EXTRA": inv, "ANYRET": "FALSE"})
     stats["states"] += r.distinct
     stats["transitions"] += r.generated
     return not r.ok
@@ -80,11 +81,20 @@ def rejects(p, a):
     return all((v["tt"], v["c"]) not in ps for v in a["vs"]) and len(a["vs"]) > 0
 
 
+def too_many(ov, call):
+    """more positional arguments than a declaration without rest / keyword parameters can take"""
+    if any(p["kind"] in ("rest", "key", "optkey") for p in ov) or any(a["key"] for a in call):
+        return False
+    return len(call) > len(ov)
+
+
 def deviation_name(prop, case):
     """Name of the known deviation of the as-is binder that explains a C07 / C08 disagreement."""
     ov = case["d"][0]
     pairs = bound_pairs(ov, case["c"])
     if prop == "C07":
+        if case.get("anyret") and "AnyReturn" in case["path"] and too_many(ov, case["c"]):
+            return "Dev_UntypedReturnSkipsTooMany"
         if any(p["kind"] == "rest" and rejects(p["ty"], a["ty"]) for p, a in pairs):
             return "Dev_RestArgsNotTypeChecked"
         for p, a in pairs:
@@ -113,7 +123,7 @@ def run_cases(work, cases, stats, notation=0, tag="b"):
         if k not in seen:
             seen[k] = len(decl_list)
             decl_list.append(c["d"])
-    cfg, names = B.build_config(work, decl_list, notation, name="cfg-%s" % tag)
+    cfg, names = B.build_config(work, decl_list, notation, name="cfg-%s" % tag, anyret=bool(cases and cases[0].get("anyret")))
     cfgkey = C.cfg_key(cfg)
     groups = collections.OrderedDict((("mf", []), ("mp", []), ("un", [])))
     for i, c in enumerate(cases):
@@ -166,10 +176,14 @@ def run(prop, tier, work):
     stats = dict(states=0, transitions=0, runs=0, rows=0)
     if tier == "quick":
         universes = [dict(maxparams=2, maxargs=2, rich=False, overloads=False)]
+        if prop in ("C07", "C08"):
+            universes.append(dict(maxparams=1, maxargs=2, rich=False, overloads=False, anyret=True))
     else:
         universes = [dict(maxparams=2, maxargs=2, rich=True, overloads=False),
                      dict(maxparams=1, maxargs=2, rich=False, overloads=True),
                      dict(maxparams=2, maxargs=3, rich=False, overloads=False)]
+        if prop in ("C07", "C08"):
+            universes.append(dict(maxparams=2, maxargs=3, rich=False, overloads=False, anyret=True))
     selftests = []
     for inv in ("Sound",):
         if not expect_deviation(work, stats, inv):
